@@ -280,6 +280,32 @@ func (x *Exec) cutLoop(node ast.Node, st *State, cond ast.Expr, post ast.Stmt, b
 			lc.keyT = mt.Key()
 		}
 	}
+	// a counting loop `for i := e; cond; i++`: $i is the counter (so that an invariant written for
+	// `for i := range s` still reads after the loop is rewritten in index form, and vice versa)
+	var counter *types.Var
+	if fs, ok := node.(*ast.ForStmt); ok && rs == nil && fs.Init != nil && fs.Post != nil {
+		if as, ok := fs.Init.(*ast.AssignStmt); ok && as.Tok == token.DEFINE && len(as.Lhs) == 1 {
+			if id, ok := as.Lhs[0].(*ast.Ident); ok {
+				if inc, ok := fs.Post.(*ast.IncDecStmt); ok && inc.Tok == token.INC {
+					if pid, ok := inc.X.(*ast.Ident); ok && pid.Name == id.Name {
+						if v, ok := x.info().Defs[id].(*types.Var); ok && !x.boxed[v] {
+							if b, ok := v.Type().Underlying().(*types.Basic); ok && b.Info()&types.IsInteger != 0 {
+								counter = v
+							}
+						}
+					}
+				}
+			}
+		}
+	}
+	if counter != nil {
+		if t, ok := st.vars[counter]; ok {
+			idxVar = t
+			lc.idx = &idxVar
+		} else {
+			counter = nil
+		}
+	}
 	label := fmt.Sprintf("loop%d", ord)
 	// 1. invariants on entry
 	for _, inv := range invs {
@@ -386,6 +412,15 @@ func (x *Exec) cutLoop(node ast.Node, st *State, cond ast.Expr, post ast.Stmt, b
 			head.assume(and(mk(SBool, "<=", intLit(0), i), mk(SBool, "<=", i, x.seqLen(rs.val))))
 		case "map":
 			visVar = x.ctx.Fresh("visited", visVar.Sort)
+		}
+	}
+	if counter != nil {
+		idxVar = head.vars[counter]
+		// the counter only ever grows from its initial value when the body does not assign it
+		bm := newModSet()
+		x.collectAll(body.List, bm)
+		if !bm.vars[counter] && !bm.all {
+			head.assume(mk(SBool, ">=", idxVar, st.vars[counter]))
 		}
 	}
 	// 2b. frame at the loop head: every write is checked against the assigns clause where it happens
@@ -532,6 +567,12 @@ func (x *Exec) cutLoop(node ast.Node, st *State, cond ast.Expr, post ast.Stmt, b
 					b = pf.normal
 				}
 				lc2 := *lc
+				if counter != nil {
+					if t, ok := b.vars[counter]; ok {
+						ni := t
+						lc2.idx = &ni
+					}
+				}
 				if rs != nil {
 					switch rs.kind {
 					case "slice", "int", "foreach":
